@@ -93,12 +93,15 @@ class C12(core.PropertyCheck):
         for b in range(blocks):
             r = rng.random()
             if r < 0.2:
-                lab = f"{name}-l{rng.randint(0, 2)}"
+                # one label in eight is the project-wide `shared-dup`: defined on several pages, which definition a reference
+                # gets and the order the pages are named in the diagnostic must not depend on the history of the open project
+                lab = f"{name}-l{rng.randint(0, 2)}" if rng.random() < 0.875 else "shared-dup"
                 head = self.words(rng, 2)
                 out += [f".. _{lab}:", "", head, "-" * len(head), "", self.words(rng, 3), ""]
             elif r < 0.35:
                 tgt = rng.choice(ctx["pages"] + ["index"])
-                out += [f"See :ref:`{tgt}-l{rng.randint(0, 2)}` and {self.words(rng, 2)}.", ""]
+                lab = f"{tgt}-l{rng.randint(0, 2)}" if rng.random() < 0.8 else "shared-dup"
+                out += [f"See :ref:`{lab}` and {self.words(rng, 2)}.", ""]
             elif r < 0.47:
                 tgt = rng.choice(ctx["pages"] + ["index", "ghost"])
                 out += [f"Read :doc:`/{tgt}` for {self.words(rng, 1)}.", ""]
@@ -119,6 +122,11 @@ class C12(core.PropertyCheck):
                 out += [f"Uses |{rng.choice(ctx['subs'])}| and |{rng.choice(ctx['subs'])}| here.", ""]
             else:
                 out += [self.words(rng, rng.randint(2, 8)) + ".", ""]
+        if ctx.get("dup"):
+            # every page of such a project defines `shared-dup`, the index refers to it
+            head = self.words(rng, 2)
+            out += ([f"See :ref:`shared-dup` for {self.words(rng, 1)}.", ""] if toctree else
+                    [".. _shared-dup:", "", head, "-" * len(head), "", self.words(rng, 2), ""])
         if toctree:
             out += [".. toctree::", ""] + [f"   /{p}" for p in ctx["pages"] if rng.random() < 0.85] + [""]
         return "\n".join(out)
@@ -211,7 +219,7 @@ class C12(core.PropertyCheck):
         npages = rng.randint(1, 3)
         pages = [f"page{i + 1}" for i in range(npages)]
         yaml = rng.choice(["includes/extracts-a.yaml", "includes/extracts-a.yaml", "includes/steps-setup.yaml"])
-        ctx = {"pages": pages, "yaml": yaml}
+        ctx = {"pages": pages, "yaml": yaml, "dup": npages >= 2 and rng.random() < 0.3}
         toml = 'name = "c12"\n\n[constants]\nversion = "4.2"\n'
         if rng.random() < 0.5:
             # project-wide substitutions holding link roles without a title of their own: the title is injected at every use,
